@@ -221,6 +221,17 @@ ROUND5 = {
     "C19": " R-C19-SQRT reads the small-k filter as a condition tree (x^2 == n modulo 2^k for unreduced n); R-C19-ROOTS: no candidate root inside (-b, b) leaves the candidate loop unverified.",
     "C20": " Filling loops (while k * len(x) < n: x += chunk) are summarised exactly, and bounds that depend on constructor arguments are decided once per registry instance.",
 }
+ROUND6 = {
+    "C04": " R-C04-EXHAUST also rejects a `continue` that skips a candidate before it is tested.",
+    "C05": " The Pollard product is read from values on both constructor paths and the pairwise product tree keeps the unpaired element (shared with C03).",
+    "C06": " A criterion over an integer field that the code compares as raw bytes is a violation (encodings differ by leading zeros); len(b.lstrip(0)) is related to the bit length by a lemma.",
+    "C08": " Window sizes, sliced lists and curve are recognised by value; sibling models agree on the lattice weight.",
+    "C09": " R-C09-PAIR: the two lists given to the hidden-number solver hold (a_i, b_i) of the same signature at the same index.",
+    "C17": " R-C17-OWN: each recorded entry is created and decided in its artifact's own pass (24 bodies); the cached table holds what its size claims (shared with C10).",
+    "C18": " R-C18-NEXT: next() needs a default or an endless iterator; R-C18-JACOBIAN: no all-zero Jacobian triple reaches the conversion (shared with C11).",
+}
+for _pid, _extra in ROUND6.items():
+  ROUND5[_pid] = ROUND5.get(_pid, "") + _extra
 for _pid, _extra in ROUND5.items():
   _c = CLAIMS[_pid]
   CLAIMS[_pid] = (_c[0], _c[1], _c[2] + _extra, _c[3], _c[4])
@@ -268,7 +279,7 @@ def main():
       },
       "engines": [{"name": "pcstatic", "path": "/verif/pcstatic",
                    "serves_properties": [c["property_id"] for c in checks],
-                   "kind_free_text": "repository-specific static analysis: ast loader/resolver, symbolic path walker over "
+                   "kind_free_text": "repository-specific static analysis: ast loader/resolver (analysis modulo alpha-renaming of locals against the pinned tree), symbolic path walker over "
                                      "polynomial terms, predicate regions, constant folder, abstract evaluation on the empty batch, "
                                      "bit-width abstract interpretation; pure stdlib, never imports /repo"}],
       "checks": checks,
